@@ -21,6 +21,7 @@ import itertools
 import json
 import math
 import os
+import random
 import shutil
 import sys
 import tempfile
@@ -35,20 +36,31 @@ import mapgen
 import terms
 
 PID = "C03"
-PROPS = ["PfModel.Props.C03"]
+PROPS = ["PfModel.Props.C03", "PfModel.Props.C03Part", "PfModel.Props.C03Exec", "PfModel.Props.C03Ops"]
 DRIVER = "C03"
 RULE = ("pipelines from harness/mapgen.py (1-4 functions: element-wise/zip, outer product, partial and full reductions, internal axes, "
         "'... -> v[j]' producers, tuple outputs, plain functions; axis sizes 1-3); per pipeline: for every generation with <= 5 submitted "
-        "tasks all its completion orders (the other generations in a fresh random order), else 40 (quick: 12) sampled orders, cycling "
+        "tasks all its completion orders (the other generations in a fresh random order), else 40 (quick: 10) sampled orders, cycling "
         "through storages dict / file_array / per-output mixes / shared_memory_dict with and without a run folder, with one executor or a "
-        "different executor per output; plus real thread pools (quick) and process pools, mixed pools and map_async (mostly thorough) with "
-        "seeded per-call delays; non-trivial = some generation submits >= 2 tasks; distinct by (pipeline, inputs, configuration, schedule)")
+        "different executor per output; real thread pools and process pools (quick: three process-pool runs per pipeline; thorough: the full "
+        "per-output storage x executor matrix for the first small pipelines), mixed pools and map_async with seeded per-call delays; one call "
+        "raising under map and map_async; HISTORIES: map(fixed_indices=part, cleanup=False, parallel=True) sequences on one folder (one or two "
+        "fixed parts — int, slice, two axes — then a full run; full then full) under the permuting executor / thread pools / map_async, each "
+        "part compared with PF.SchedP.runPartSched played on the observed schedule; MALFORMED executor configurations (executor with "
+        "parallel=False, empty dict, dict without default, a single name of a tuple output as key) compared with the Lean rule; "
+        "non-trivial = some generation submits >= 2 tasks; distinct by (pipeline, inputs, configuration / history, schedule)")
 ASSUMPTIONS = ["interleavings *inside* a task body (two workers inside cloudpickle.dump, Manager proxy round-trips, os.listdir racing a write) "
                "are exercised by the real pools but not modelled: the theorem covers every interleaving at the granularity of task bodies "
                "and parent-side processing",
                "NumPy object-array indexing, cloudpickle, concurrent.futures and asyncio are specified by the model, not verified",
                "the order of functions inside a generation is not compared (only the set), schedules are transported by task label",
-               "dump events are observed by wrapping DictArray.dump / FileArray.dump in the harness process (inherited by forked workers)"]
+               "dump events are observed by wrapping DictArray.dump / FileArray.dump in the harness process (inherited by forked workers)",
+               "histories: the `run_info.json` comparison of cleanup=False is not modelled (same pipeline and inputs in every part); the previous "
+               "store is what the preceding part left (crash states are C05's)",
+               "map_async: `asyncio.gather` is modelled as 'results in submission order, first failure in completion order'; task cancellation "
+               "is not modelled and not exercised; a raising user function is exercised (call counts, barrier, both entry points fail) but "
+               "not modelled — the model's functions are total",
+               "an executor whose truth value is False would make `_maybe_execute_single` (`if ex:`) run an un-mapped function in the parent; not modelled"]
 
 DUMP_SUB = {"dict": False, "file_array": True, "shared_memory_dict": True}
 
@@ -181,16 +193,26 @@ class Built:
 
     def __init__(self, desc):
         self.delays = {f["name"]: px.SeededDelay(0, 0.0) for f in desc["funcs"]}
+        self.fails = {f["name"]: px.FailAt() for f in desc["funcs"]}
         self.log = px.PLog(None)
         try:
-            self.p, _ = mapgen.build(desc, log=self.log, delay=self.delays)
+            self.p, _ = mapgen.build(desc, log=self.log, delay=self.delays, fail=self.fails)
             self.err = None
         except Exception as e:  # noqa: BLE001
             self.p, self.err = None, {"err": exc_enum(e), "at": "construct", "msg": str(e)[:200]}
 
 
-def run_impl(desc, cfg, base, built=None):
-    """One run of the real code under `cfg`.  Never raises; a hang is an observation."""
+def sel_py(j):
+    return j if isinstance(j, int) else slice(*j["sl"])
+
+
+def fixed_py(fx):
+    return None if fx is None else {a: sel_py(s) for a, s in fx}
+
+
+def run_impl(desc, cfg, base, built=None, folder=None):
+    """One run of the real code under `cfg`.  Never raises; a hang is an observation.
+    `folder`: a run folder shared by the runs of a history (`cfg["cleanup"] = False`, `cfg["fixed"]`)."""
     from pipefunc.map import load_outputs
 
     built = built or Built(desc)
@@ -205,13 +227,20 @@ def run_impl(desc, cfg, base, built=None):
     for i, (name, d) in enumerate(built.delays.items()):
         d.seed = (cfg.get("delay") or 0) * 131 + i
         d.max_s = cfg.get("max_delay", 0.004) if cfg.get("delay") is not None else 0.0
-    folder = os.path.join(work, "run") if cfg.get("folder", True) else None
+    for name, fl in built.fails.items():
+        tgt = cfg.get("fail")
+        fl.target, fl.cls = (tgt[1], tgt[2]) if tgt and tgt[0] == name else (None, "Fail")
+    if folder is None:
+        folder = os.path.join(work, "run") if cfg.get("folder", True) else None
     orders = cfg.get("orders") or []
     mism = []
 
     def choose(n, b):
         if b < len(orders) and sorted(orders[b]) == list(range(n)):
             return orders[b]
+        if "order_seed" in cfg:          # schedules of a history: drawn when the batch is known, recorded in obs["schedule"]
+            r = random.Random(f"{cfg['order_seed']}:{b}:{n}")
+            return r.sample(range(n), n)
         mism.append((b, n))
         return list(range(n))
 
@@ -221,6 +250,8 @@ def run_impl(desc, cfg, base, built=None):
     record: list = []
     ex, pools = make_executors(desc, cfg, core, record)
     kw = dict(run_folder=folder, internal_shapes=mapgen.internal_shapes_arg(desc), executor=ex, storage=storage_arg(desc, cfg))
+    if "fixed" in cfg or not cfg.get("cleanup", True):
+        kw.update(fixed_indices=fixed_py(cfg.get("fixed")), cleanup=cfg.get("cleanup", True))
     inputs = mapgen.py_inputs(desc)
 
     def go():
@@ -240,11 +271,12 @@ def run_impl(desc, cfg, base, built=None):
 
     def read(res):
         """Returned arrays, in-memory stores, stores re-loaded from the run folder."""
-        obs["outputs"], obs["stored"], obs["reloaded"] = {}, {}, {}
+        obs["outputs"], obs["stored"], obs["reloaded"], obs["present"] = {}, {}, {}, {}
         try:
             for name, r in res.items():
                 obs["outputs"][name] = terms.enc(r.output)
                 st = r.store
+                obs["present"][name] = [i for i, m in enumerate(st.mask_linear()) if not m] if hasattr(st, "mask_linear") else None
                 if hasattr(st, "to_array"):
                     obs["stored"][name] = terms.enc(st.to_array())
                     ids[id(st)] = name
@@ -265,6 +297,7 @@ def run_impl(desc, cfg, base, built=None):
 
     try:
         status, val = px.run_with_watchdog(lambda: read(go()), cfg.get("timeout", 60 if pools else 25))
+        px.close_core(core)
         sys.stdout, sys.stderr = saved_streams       # a hung run never leaves `redirect_stdout`
         _DUMP["path"] = None
         obs["schedule"] = [{"labels": b["labels"], "order": b["order"], "tags": b["tags"]} for b in core.batches]
@@ -279,7 +312,8 @@ def run_impl(desc, cfg, base, built=None):
             obs["log"] = log.read()
             return obs
         if status == "exc":
-            obs.update(err=exc_enum(val), at="map", msg=str(val)[:200])
+            obs.update(err=exc_enum(val), at="map", msg=str(val)[:200], log=log.read())
+            obs["tags"] = record + [(t, l) for b in core.batches for t, l in zip(b["tags"], b["labels"])]
             return obs
         if "err" in obs:
             return obs
@@ -318,6 +352,8 @@ def judge(ctx, desc, cfg, obs, model):
     case = {"desc": desc, "cfg": cfg, "schedule": obs.get("schedule")}
     gens, by_label = plan(desc, model)
     ctx.count("run:" + cfg_key(cfg))
+    if cfg.get("matrix"):
+        ctx.count("matrix-cell")
     ctx.count("storage:" + storage_key(cfg) + ("" if cfg.get("folder", True) else "/no-folder"))
     ctx.record({"desc": desc, "cfg": cfg}, nontrivial=any(sum(g.values()) >= 2 for g in gens))
     if obs.get("hang"):
@@ -357,13 +393,8 @@ def judge(ctx, desc, cfg, obs, model):
             ctx.violation(case, f"`{n}` (generation {g}) was invoked before every task of the earlier generations had completed",
                           impl={"log": [[c[0], c[2]] for c in obs["log"]]}, model={"gens": model["gens"]})
             return False
-    # executor selection
-    for tag, (lab, _) in obs["tags"]:
-        f = by_label.get(lab)
-        if f is not None and tag != expected_tag(desc, cfg, f):
-            ctx.violation(case, f"task of `{lab}` was submitted to executor `{tag or 'default'}`, expected `{expected_tag(desc, cfg, f) or 'default'}`",
-                          found_input=False, item="correspondence:executor-selection")
-            return False
+    # executor selection: compared with the Lean rule (`exec.select`) after the batch (see `judge_exec`)
+    EXEC_JOBS.append((case, obs["tags"], exec_request(desc, cfg, model)))
     if len(obs["tags"]) != sum(sum(g.values()) for g in gens):
         ctx.violation(case, "number of submitted tasks differs from one per (mapped function, index) plus one per un-mapped function",
                       found_input=False, item="correspondence:submitted-tasks", impl={"tags": obs["tags"]}, model={"plan": gens})
@@ -426,6 +457,386 @@ def judge_sched(ctx, desc, cfg, obs, model, resp):
                       item="correspondence:dump-events", impl={"dumps": got_d}, model={"dumps": want_d})
 
 
+# ------------------------------------------------------------------------------------------------ executor selection (Lean rule)
+EXEC_JOBS: list = []
+
+
+def exec_arg(desc, cfg):
+    """The `executor=` argument of a configuration as the driver's `exec.select` wants it: executors are named by their tag."""
+    kinds = cfg["kinds"]
+    if list(kinds) == [""]:
+        return "E:"
+    by_name = {f["name"]: f for f in desc["funcs"]}
+    out = []
+    for k in kinds:
+        if k == "":
+            out.append(["", "E:"])
+        else:
+            f = by_name[k]
+            out.append([f["outputs"][0] if len(f["outputs"]) == 1 else list(f["outputs"]), "E:" + olabel(f)])
+    return out
+
+
+def exec_request(desc, cfg, model, parallel=True, executor=None):
+    by_name = {f["name"]: f for f in desc["funcs"]}
+    return {"m": "exec.select", "a": {"parallel": parallel, "gens": [[by_name[n]["outputs"] for n in g] for g in model["gens"]],
+                                      "executor": exec_arg(desc, cfg) if executor is None else executor}}
+
+
+def judge_exec(ctx, case, tags, resp):
+    ctx.count("executor-rule-checked")
+    if "choices" not in resp:
+        ctx.violation(case, f"the model refuses the executor configuration of a run that succeeded: {resp}", found_input=False,
+                      item="correspondence:executor-selection")
+        return
+    want = {"+".join(outs): ch for gen in resp["choices"] for outs, ch in gen}
+    for tag, (lab, _) in tags:
+        ch = want.get(lab)
+        if ch is None or ch.get("submit") != "E:" + tag:
+            ctx.violation(case, f"task of `{lab}` was submitted to executor `{tag or 'default'}`, the rule (_executor_for_func) says {ch}",
+                          found_input=False, item="correspondence:executor-selection")
+            return
+
+
+# ------------------------------------------------------------------------------------------------ histories: fixed_indices, cleanup=False
+def axes_of(desc):
+    names = []
+    for f in desc["funcs"]:
+        if is_mapped(f):
+            for a in f["mapspec"]["inputs"] + f["mapspec"]["outputs"]:
+                for x in a[1]:
+                    if x is not None and x not in names:
+                        names.append(x)
+    return names
+
+
+def free_axes(desc):
+    """Axes that no function reduces (an approximation of `_reduced_axes`: arrays taken whole or sliced with ':')."""
+    carried = {}
+    for f in desc["funcs"]:
+        if f["mapspec"]:
+            for name, ax in f["mapspec"]["inputs"] + f["mapspec"]["outputs"]:
+                cur = carried.setdefault(name, [None] * len(ax))
+                for q, x in enumerate(ax):
+                    if q < len(cur) and x is not None:
+                        cur[q] = x
+    reduced = set()
+    for f in desc["funcs"]:
+        specs = {n: ax for n, ax in (f["mapspec"]["inputs"] if f["mapspec"] else [])}
+        for p, _ in f["params"]:
+            if p in carried:
+                if p not in specs:
+                    reduced.update(x for x in carried[p] if x)
+                else:
+                    reduced.update(c for c, x in zip(carried[p], specs[p]) if x is None and c)
+    return [a for a in axes_of(desc) if a not in reduced]
+
+
+def gen_history(rng, desc, thorough):
+    """A sequence of `map(fixed_indices=…, cleanup=False, parallel=True)` runs on one folder, ending with a full run."""
+    axes = [a for a in axes_of(desc) if desc["sizes"].get(a, 1) >= 1]
+    free = [a for a in free_axes(desc) if a in axes]
+    if free and rng.random() < 0.85:          # mostly axes the validation accepts; sometimes a reduced one (refused by both sides)
+        axes = free
+    parts = []
+    shape = rng.choice(["fix-then-full", "fix-then-full", "two-then-full", "full-then-full", "slice-then-full"]) if axes else "full-then-full"
+    if shape == "full-then-full":
+        parts = [None, None]
+    else:
+        a = rng.choice(axes)
+        n = desc["sizes"].get(a, 1)
+        if shape == "fix-then-full":
+            parts = [[[a, rng.randrange(n)]], None]
+        elif shape == "two-then-full":
+            ks = rng.sample(range(n), min(n, 2))
+            parts = [[[a, k]] for k in ks] + [None]
+        else:
+            m = rng.randrange(n + 1)
+            sl = rng.choice([[None, m, None], [m, None, None], [None, None, 2], [None, None, -1]])
+            parts = [[[a, {"sl": sl}]], None]
+        if len(axes) > 1 and rng.random() < 0.3:       # a second fixed axis in the first part
+            b = rng.choice([x for x in axes if x != a])
+            parts[0] = parts[0] + [[b, rng.randrange(desc["sizes"].get(b, 1))]]
+    kind = rng.choice(["perm", "perm", "perm", "perm", "thread"])
+    split = rng.random() < 0.3
+    return {"parts": parts, "entry": rng.choice(["map", "map", "async"]),
+            "kinds": split_kinds(rng, desc, kind, kind) if split else {"": kind},
+            "storage": storages_for(rng, desc, rng.randrange(5), False), "order_seed": rng.randrange(10**9),
+            "workers": rng.randint(2, 4), "delay": rng.randrange(10**6) if kind == "thread" else None}
+
+
+def part_cfg(hist, k, fixed):
+    cfg = {"kinds": hist["kinds"], "entry": hist["entry"], "storage": hist["storage"], "folder": True, "cleanup": False, "fixed": fixed,
+           "order_seed": hist["order_seed"] * 7 + k, "reload": False, "workers": hist.get("workers", 3)}
+    if hist.get("delay") is not None:
+        cfg["delay"] = hist["delay"] + k
+    if hist.get("orders") and k < len(hist["orders"]):     # replay: the recorded schedules
+        cfg["orders"] = hist["orders"][k]
+    return cfg
+
+
+def run_history(desc, hist, base, parallel=True):
+    """The parts in order on one fresh folder (a fresh `Pipeline` object); one observation per part, stopping at the first failure."""
+    built = Built(desc)
+    folder = tempfile.mkdtemp(dir=base)
+    out = []
+    try:
+        for k, fixed in enumerate(hist["parts"]):
+            if parallel:
+                obs = run_impl(desc, part_cfg(hist, k, fixed), base, built, folder=os.path.join(folder, "run"))
+            else:
+                obs = run_seq_part(desc, hist, fixed, built, os.path.join(folder, "run"))
+            out.append(obs)
+            if "err" in obs or obs.get("hang"):
+                break
+        return out
+    finally:
+        shutil.rmtree(folder, ignore_errors=True)
+
+
+def run_seq_part(desc, hist, fixed, built, folder):
+    """The same part with `parallel=False` (the sequential runner of the real code): the reference for classification."""
+    obs = {"outputs": {}, "stored": {}, "present": {}}
+    built.log.path = None
+    built.log.calls.clear()
+    try:
+        res = mapgen.quiet(built.p.map, mapgen.py_inputs(desc), run_folder=folder, internal_shapes=mapgen.internal_shapes_arg(desc),
+                           parallel=False, storage=storage_arg(desc, hist), cleanup=False, fixed_indices=fixed_py(fixed))
+        for name, r in res.items():
+            obs["outputs"][name] = terms.enc(r.output)
+            st = r.store
+            obs["present"][name] = [i for i, m in enumerate(st.mask_linear()) if not m] if hasattr(st, "mask_linear") else None
+            if hasattr(st, "to_array"):
+                obs["stored"][name] = terms.enc(st.to_array())
+            elif hasattr(st, "value"):
+                obs["stored"][name] = terms.enc(st.value)
+            else:
+                from pipefunc._utils import load
+                obs["stored"][name] = terms.enc(load(st))
+        obs["log"] = built.log.read()
+    except Exception as e:  # noqa: BLE001
+        obs.update(err=exc_enum(e), at="map", msg=str(e)[:200], log=built.log.read())
+    return obs
+
+
+def part_orders(desc, model, obs):
+    """The observed schedule of one part as per-generation [[function name, external index]] lists; None when a batch is
+    not (part of) exactly one generation or a generation was released in several batches."""
+    by_label = {olabel(f): f for f in desc["funcs"]}
+    gen_of = {n: g for g, names in enumerate(model["gens"]) for n in names}
+    orders = [[] for _ in model["gens"]]
+    seen = set()
+    for b in obs.get("schedule") or []:
+        gs = {gen_of[by_label[lab]["name"]] for lab, _ in b["labels"] if lab in by_label}
+        if len(gs) != 1 or any(lab not in by_label for lab, _ in b["labels"]):
+            return None
+        g = gs.pop()
+        if g in seen:
+            return None
+        seen.add(g)
+        orders[g] = [[by_label[b["labels"][i][0]]["name"], b["labels"][i][1] or 0] for i in b["order"]]
+    return orders
+
+
+def history_request(desc, hist, obs_list, model):
+    dump_sub = [o for f in desc["funcs"] for o in f["outputs"] if DUMP_SUB[storage_of(desc, hist, f)]]
+    perm = set(hist["kinds"].values()) == {"perm"}
+    parts, replayed = [], []
+    for fixed, obs in zip(hist["parts"], obs_list):
+        orders = part_orders(desc, model, obs) if perm and "err" not in obs and not obs.get("hang") else None
+        replayed.append(orders is not None)
+        parts.append({"fixed": fixed, "orders": orders} if orders is not None else {"fixed": fixed})
+    a = mapgen.model_request(desc)
+    a.update(dump_sub=dump_sub, mode="gather" if hist["entry"] == "async" else "sync", parts=parts)
+    return {"m": "part.sched", "a": a}, replayed
+
+
+def model_part(r):
+    if "err" in r:
+        return {"err": r["err"], "msg": r.get("why")}
+    return {"calls": sorted((canon_call(n, kw) for n, kw in r["calls"]), key=repr), "present": dict(r["present"]),
+            "stored": {k: terms.canon(v) for k, v in r["stored"]}, "outputs": {k: terms.canon(v) for k, v in r["outputs"]}}
+
+
+def part_diff(obs, want):
+    """First difference between an observed part and a reference part (model or sequential real run); None when equal."""
+    if ("err" in obs) != ("err" in want):
+        return f"one fails ({obs.get('err') or want.get('err')}: {(obs.get('msg') or want.get('msg') or '')[:80]}), the other does not"
+    if "err" in obs:
+        return None if obs["err"] == want["err"] else f"fails with {obs['err']}, reference {want['err']}"
+    for key in ("outputs", "stored", "present"):
+        for name, v in want[key].items():
+            if obs[key].get(name) != v:
+                return f"{key} of `{name}` differ"
+    calls = sorted(([c[0], c[1]] for c in obs["log"] if c[2] == "call"), key=repr)
+    if calls != want["calls"]:
+        return "call multisets differ (an index that is stored or not selected was computed, or a missing selected one was not)"
+    return None
+
+
+def judge_history(ctx, desc, hist, obs_list, model, resp, replayed, base):
+    sched = [o.get("schedule") for o in obs_list]
+    case = {"desc": desc, "history": dict(hist, orders=[[b["order"] for b in (sc or [])] for sc in sched])}
+    ctx.count(f"history:{len(hist['parts'])}-parts/{hist['entry']}/{'+'.join(sorted(set(hist['kinds'].values())))}")
+    ctx.count("history-storage:" + storage_key(hist))
+    mparts = resp["parts"]
+    nontrivial = False
+    for k, obs in enumerate(obs_list):
+        pcase = dict(case, part=k)
+        if obs.get("hang"):
+            ctx.record(pcase, nontrivial=True)
+            ctx.violation(pcase, "a partial / resumed parallel run hangs under this schedule", impl={"log": obs.get("log")})
+            return
+        if k >= len(mparts):
+            break
+        mp = mparts[k]
+        if "not_perm" in mp:
+            ctx.record(pcase, nontrivial=True)
+            ref = model_part(mp["seq"])
+            d = part_diff(obs, ref)
+            ctx.violation(pcase, "the tasks handed to the executors are not one per selected missing index (plus one per un-mapped function)"
+                          + (f"; and {d}" if d else ""), found_input=bool(d), item=None if d else "correspondence:submitted-tasks-partial",
+                          impl={"schedule": obs.get("schedule")}, model={"not_perm": mp["not_perm"]})
+            return
+        if not resp.get("unique_outputs") or not mp.get("equal") or not mp.get("modes_agree") or \
+                ("err" not in mp["part"] and not (mp.get("barrier") and mp.get("ops_equal"))):
+            raise AssertionError(f"model: scheduled partial run differs from the sequential one / sync and gather disagree / operation-level run differs: {json.dumps(pcase)[:1500]}")
+        want = model_part(mp["part"])
+        d = part_diff(obs, want)
+        ntasks = sum(len(b["order"]) for b in (obs.get("schedule") or []))
+        nontrivial = nontrivial or ntasks >= 2
+        ctx.record(pcase, nontrivial=ntasks >= 2)
+        if "err" in want and d is None:
+            ctx.count("history:refused-by-both")
+            return
+        if d is not None:
+            # classification: does the *real* sequential runner agree with the real parallel one?
+            seq = run_history(desc, hist, base, parallel=False)
+            sref = None
+            if k < len(seq):
+                so = seq[k]
+                sref = so if "err" in so else dict(so, calls=sorted(([c[0], c[1]] for c in so["log"] if c[2] == "call"), key=repr))
+            d2 = part_diff(obs, sref) if sref is not None else "the sequential history stops earlier"
+            if d2 is not None:
+                ctx.violation(pcase, f"part {k} of a history run in parallel differs from the same history run sequentially (real code): {d2}",
+                              impl={k2: obs.get(k2) for k2 in ("outputs", "stored", "present", "err", "msg")},
+                              model={k2: (sref or {}).get(k2) for k2 in ("outputs", "stored", "present", "err", "msg")})
+            else:
+                hc = history_clause(hist, obs_list, model)        # search nearby: does the property itself fail on this history?
+                if hc is not None:
+                    ctx.violation(case, hc[0] + f" [first difference with the model: part {k}: {d}]", impl=hc[1], model=hc[2])
+                else:
+                    ctx.violation(pcase, f"part {k}: {d} (parallel and sequential real runs agree with each other, not with the model)", found_input=False,
+                                  item="correspondence:partial-run-model", impl={k2: obs.get(k2) for k2 in ("outputs", "stored", "present", "err")}, model=want)
+            return
+        if "err" in obs:
+            return
+        # once per selected missing index is `calls == want["calls"]` above; barrier inside the part
+        gen_of = {n: g for g, names in enumerate(model["gens"]) for n in names}
+        expected = [0] * len(model["gens"])
+        for n, _ in want["calls"]:
+            expected[gen_of[n]] += 1
+        done = [0] * len(model["gens"])
+        for n, _, phase, _ in obs["log"]:
+            g = gen_of[n]
+            if phase == "done":
+                done[g] += 1
+            elif any(done[h] != expected[h] for h in range(g)):
+                ctx.violation(pcase, f"`{n}` (generation {g}) was invoked before every task of the earlier generations had completed (partial run)",
+                              impl={"log": [[c[0], c[2]] for c in obs["log"]]}, model={"gens": model["gens"]})
+                return
+        EXEC_JOBS.append((pcase, obs["tags"], exec_request(desc, hist, model)))
+        by_out = {o: f for f in desc["funcs"] for o in f["outputs"]}
+        want_d = sorted([o, w] for tr in mp["trace"] for o, idx, w in tr["dumps"] if idx is not None and is_mapped(by_out[o]))
+        got_d = sorted([x[0], x[2]] for x in obs["dumps"])
+        if got_d != want_d or len({(x[0], x[1]) for x in obs["dumps"]}) != len(obs["dumps"]):
+            ctx.violation(pcase, "partial run: an element was not dumped exactly once (worker iff dump_in_subprocess, else parent), or a stored one was dumped again",
+                          found_input=False, item="correspondence:single-dump-partial", impl={"dumps": obs["dumps"]}, model={"dumps": want_d})
+            return
+        if replayed[k]:
+            ctx.count("history-part-replayed")
+            want_c = [canon_call(n, kw) for tr in mp["trace"] for n, kw in tr["calls"]]
+            got_c = [[c[0], c[1]] for c in obs["log"] if c[2] == "call"]
+            if got_c != want_c:
+                ctx.violation(pcase, "partial run: execution-order call log differs from the model played on the same schedule", found_input=False,
+                              item="correspondence:execution-order-partial", impl={"calls": got_c}, model={"calls": want_c})
+                return
+    # the property's own clause on the whole history
+    hc = history_clause(hist, obs_list, model)
+    if hc is not None:
+        ctx.violation(case, hc[0], impl=hc[1], model=hc[2])
+
+
+def history_clause(hist, obs_list, model):
+    """After the final full run of a history the returned results and the stored data are those of an uninterrupted run, and
+    over all parts every function was invoked exactly once per output index.  Returns (what, impl, model) or None."""
+    if not (len(obs_list) == len(hist["parts"]) and hist["parts"][-1] is None and all("err" not in o and not o.get("hang") for o in obs_list)):
+        return None
+    last = obs_list[-1]
+    for name, want in model["stored"].items():
+        if last["stored"].get(name) != want:
+            return (f"after the final full run of the history, stored `{name}` differs from the stored data of an uninterrupted run",
+                    {"stored": last["stored"].get(name)}, {"stored": want})
+    for name, want in model["outputs"].items():
+        if last["outputs"].get(name) != want:
+            return (f"the final full run of the history returns `{name}` different from what an uninterrupted run returns",
+                    {"output": last["outputs"].get(name)}, {"output": want})
+    allc = sorted(([c[0], c[1]] for o in obs_list for c in o["log"] if c[2] == "call"), key=repr)
+    if allc != model["calls"]:
+        return ("over the whole history a function was not invoked exactly once per output index (an element was recomputed or skipped)",
+                {"calls": allc}, {"calls": model["calls"]})
+    return None
+
+
+# ------------------------------------------------------------------------------------------------ a failing task: sync vs async
+def fail_runs(ctx, desc, model, base, built):
+    """One call of a mapped function raises.  C03 states nothing about the exception itself (C13 does); what it states and is
+    checked here, for `map` and `map_async` under the same schedule: no function is invoked twice for an index, nothing of a
+    later generation is invoked, and both entry points fail."""
+    rng = ctx.rng
+    gens, by_label = plan(desc, model)
+    by_name = {f["name"]: f for f in desc["funcs"]}
+    gen_of = {n: g for g, names in enumerate(model["gens"]) for n in names}
+    cands = [c for c in model["calls"] if is_mapped(by_name[c[0]]) and next(g[olabel(by_name[c[0]])] for g in gens if olabel(by_name[c[0]]) in g) >= 2]
+    if not cands:
+        return
+    cands = [c for c in cands if model["calls"].count(c) == 1] or cands       # a call whose arguments occur once
+    target = rng.choice(cands)
+    sizes = [sum(g.values()) for g in gens]
+    orders = [rng.sample(range(m), m) for m in sizes]
+    errs = {}
+    for entry in ("map", "async"):
+        cfg = {"kinds": {"": "perm"}, "entry": entry, "storage": rng.choice(["dict", "file_array"]), "folder": True, "orders": orders,
+               "fail": [target[0], target[1], "Fail"], "reload": False}
+        case = {"desc": desc, "cfg": cfg}
+        obs = run_impl(desc, cfg, base, built)
+        ctx.count("failing-task:" + entry)
+        ctx.record(case, nontrivial=True)
+        if obs.get("hang"):
+            ctx.violation(case, "a run in which one task raises hangs instead of failing", impl={"log": obs.get("log")})
+            return
+        if "err" not in obs:
+            calls = [[c[0], c[1]] for c in obs["log"] if c[2] == "call"]
+            if [target[0], target[1]] in calls:
+                ctx.violation(case, "a task raised but the run returned results", impl={"outputs": obs.get("outputs")})
+            else:
+                ctx.skip("the injected failure did not fire (argument encoding)")
+            return
+        errs[entry] = obs["err"]
+        calls = [[c[0], c[1]] for c in obs["log"] if c[2] == "call"]
+        if any(calls.count(c) > model["calls"].count(c) for c in calls):
+            ctx.violation(case, "in a failing run a function was invoked twice for the same index", impl={"calls": calls})
+            return
+        late = [c[0] for c in calls if gen_of[c[0]] > gen_of[target[0]]]
+        if late:
+            ctx.violation(case, f"after a task of generation {gen_of[target[0]]} raised, `{late[0]}` of a later generation was still invoked "
+                          "(its inputs are not complete)", impl={"calls": [c[0] for c in calls]})
+            return
+    if len(errs) == 2 and errs["map"] != errs["async"]:
+        ctx.violation({"desc": desc, "fail": target, "orders": orders}, f"map fails with {errs['map']}, map_async with {errs['async']} for the same single failing task",
+                      found_input=False, item="correspondence:async-failure-class")
+
+
 # ------------------------------------------------------------------------------------------------ configurations
 def storages_for(rng, desc, k, thorough):
     """The k-th storage assignment for a pipeline (cycled)."""
@@ -480,32 +891,147 @@ CORPUS: list = [(_chain(), {"kinds": {"f0": "perm", "f1": "perm", "f2": "perm"},
                             "folder": True, "orders": [[5, 2, 4, 1, 3, 0], [1, 2, 0]]})]
 
 
-def malformed(ctx, base):
-    """Configurations the runner must refuse: an executor with parallel=False; an executor dict that covers neither the output nor a default."""
+MALFORMED = ["seq+executor", "seq+dict", "seq+empty-dict", "par+empty-dict", "no-default", "no-default", "tuple-part-key", "tuple-part-key"]
+
+
+N_QUICK, N_HIST_QUICK = 12, 12
+
+
+MATRIX_DONE = [0]
+
+
+def process_cfgs(rng, desc, di, thorough):
+    """Real process pools.  Measured on this machine: a `map` under a 2-3 worker ProcessPoolExecutor costs ~0.05 s (fork), under
+    shared_memory_dict ~0.3 s (a Manager process per array) — so quick affords three process-pool runs per pipeline (alone,
+    mixed with a thread pool per output, through map_async) and shared memory on every fourth pipeline; thorough adds, for
+    the first small pipelines, the full per-output storage x per-output executor matrix."""
+    out = []
+    plain = ["file_array", "dict", storages_for(rng, desc, 2, False)]
+    for k in range(4 if thorough else 3):
+        kinds = {"": "process"} if k % 2 == 0 else split_kinds(rng, desc, "process", "thread")
+        st = ["file_array", "dict", "shared_memory_dict", storages_for(rng, desc, 5, True)][k % 4] if thorough else plain[(k + di) % 3]
+        out.append({"kinds": kinds, "entry": "async" if k == (3 if thorough else 2) else "map", "storage": st, "folder": True,
+                    "workers": rng.randint(2, 3), "delay": rng.randrange(10**6), "max_delay": 0.003})
+    if not thorough and di % 4 == 1:
+        out.append({"kinds": {"": "process"}, "entry": "map", "storage": "shared_memory_dict", "folder": True,
+                    "workers": 2, "delay": rng.randrange(10**6), "max_delay": 0.003})
+    if thorough and len(desc["funcs"]) <= 3 and MATRIX_DONE[0] < 8:
+        MATRIX_DONE[0] += 1
+        out += matrix_cfgs(rng, desc)
+    return out
+
+
+def matrix_cfgs(rng, desc):
+    """Every assignment of (storage, executor) to the functions of a small pipeline: {dict, file_array, shared_memory_dict} x
+    {thread, process} per output for <= 2 functions (36 runs), {dict, file_array} x {thread, process} for 3 (64 runs)."""
+    names = [f["name"] for f in desc["funcs"]]
+    sts = ["dict", "file_array", "shared_memory_dict"] if len(names) <= 2 else ["dict", "file_array"]
+    cells = [(s_, e) for s_ in sts for e in ("thread", "process")]
+    out = []
+    for combo in itertools.product(cells, repeat=len(names)):
+        out.append({"kinds": {n: e for n, (_, e) in zip(names, combo)}, "entry": "map", "matrix": True,
+                    "storage": {n: s_ for n, (s_, _) in zip(names, combo)} | {"": "dict"}, "folder": True,
+                    "workers": 2, "delay": rng.randrange(10**6), "max_delay": 0.002})
+    return out
+
+
+def _hist_chain():
+    d = _chain()
+    return d
+
+
+# (desc, history): the prototype pipeline, first `i = 1` under one executor per output, then the full run, async, mixed storages
+HISTORY_CORPUS: list = [(_hist_chain(), {"parts": [[["i", 1]], None], "entry": "async", "kinds": {"f0": "perm", "f1": "perm", "f2": "perm"},
+                                         "storage": {"": "dict", "f1": "file_array"}, "order_seed": 7, "workers": 2, "delay": None})]
+
+
+def malformed_cases(ctx):
+    """Executor configurations the runner must refuse (the malformed stream): generated up front so that their schedule-free
+    models come with the first driver batch."""
+    rng, out = ctx.rng, []
+    for _ in range(ctx.n(8, 60)):
+        which = rng.choice(MALFORMED)
+        desc = mapgen.gen_case(rng, max_funcs=rng.choice([2, 3, 4]), p_tuple=0.6 if which == "tuple-part-key" else 0.2)
+        if which == "tuple-part-key" and not any(len(f["outputs"]) > 1 for f in desc["funcs"]):
+            which = "no-default"
+        if which == "no-default" and len(desc["funcs"]) < 2:
+            which = "par+empty-dict"
+        out.append((desc, which))
+    return out
+
+
+def run_malformed(ctx, desc, which, model, base):
+    """Returns (case, observation, `exec.select` request)."""
     rng = ctx.rng
-    for _ in range(ctx.n(4, 40)):
-        desc = mapgen.gen_case(rng, max_funcs=3)
-        log = px.PLog(os.path.join(base, f"mal{rng.randrange(10**9)}.log"))
-        p, _ = mapgen.build(desc, log=log)
-        core = px.PermCore(lambda n, b: list(range(n)))
-        which = rng.choice(["seq+executor", "no-default"]) if len(desc["funcs"]) > 1 else "seq+executor"
-        ctx.count("malformed:" + which)
-        try:
-            if which == "seq+executor":
-                mapgen.quiet(p.map, mapgen.py_inputs(desc), internal_shapes=mapgen.internal_shapes_arg(desc), parallel=False,
-                             executor=px.PermExecutor(core), storage="dict")
-            else:
-                f0 = rng.choice(desc["funcs"])         # only this function has an executor, and there is no "" default
-                mapgen.quiet(p.map, mapgen.py_inputs(desc), internal_shapes=mapgen.internal_shapes_arg(desc), parallel=True,
-                             executor={out_key(f0): px.PermExecutor(core)}, storage="dict")
-            ctx.violation({"desc": desc, "malformed": which}, "an executor configuration that names no executor for an output is accepted")
-        except ValueError:
-            if which == "seq+executor" and log.read():
-                ctx.violation({"desc": desc, "malformed": which}, "user code ran although the request was refused")
-        except Exception as e:  # noqa: BLE001
-            ctx.violation({"desc": desc, "malformed": which}, f"refused with {exc_enum(e)} instead of ValueError", found_input=False,
+    log = px.PLog(os.path.join(base, f"mal{rng.randrange(10**9)}.log"))
+    p, _ = mapgen.build(desc, log=log)
+    core = px.PermCore(lambda n, b: list(range(n)), debounce=None)      # queued tasks of a refused generation never run
+    ex = lambda: px.PermExecutor(core)                                     # noqa: E731
+    parallel = not which.startswith("seq")
+    if which == "seq+executor":
+        arg, marg = ex(), "E:"
+    elif which == "seq+dict":
+        arg, marg = {"": ex()}, [["", "E:"]]
+    elif which in ("seq+empty-dict", "par+empty-dict"):
+        arg, marg = {}, []
+    else:
+        funcs = list(desc["funcs"])
+        if which == "tuple-part-key":
+            t = rng.choice([f for f in funcs if len(f["outputs"]) > 1])
+            covered = [f for f in funcs if f is not t]
+            arg = {out_key(f): ex() for f in covered}
+            marg = [[f["outputs"][0] if len(f["outputs"]) == 1 else list(f["outputs"]), "E:"] for f in covered]
+            o = rng.choice(t["outputs"])                      # one *name* of the tuple: does not cover the function
+            arg[o] = ex()
+            marg.append([o, "E:"])
+        else:
+            k = rng.randrange(0, len(funcs))                  # a proper subset, possibly empty … but never an empty dict
+            covered = rng.sample(funcs, k) or [rng.choice(funcs)]
+            if len(covered) == len(funcs):
+                covered = covered[:-1]
+            arg = {out_key(f): ex() for f in covered}
+            marg = [[f["outputs"][0] if len(f["outputs"]) == 1 else list(f["outputs"]), "E:"] for f in covered]
+    case = {"desc": desc, "malformed": which, "executor_keys": marg, "parallel": parallel}
+    obs = {}
+    try:
+        status, val = px.run_with_watchdog(lambda: mapgen.quiet(p.map, mapgen.py_inputs(desc), internal_shapes=mapgen.internal_shapes_arg(desc),
+                                                                parallel=parallel, executor=arg, storage="dict"), 20)
+        if status == "hang":
+            obs["hang"] = True
+        elif status == "exc":
+            obs.update(err=exc_enum(val), msg=str(val)[:160])
+    except Exception as e:  # noqa: BLE001
+        obs.update(err=exc_enum(e), msg=str(e)[:160])
+    obs["calls"] = sorted(([c[0], c[1]] for c in log.read() if c[2] == "call"), key=repr)
+    return case, obs, exec_request(desc, None, model, parallel=parallel, executor=marg)
+
+
+def judge_malformed(ctx, case, obs, model, resp):
+    ctx.count("malformed:" + case["malformed"])
+    ctx.record(case, nontrivial=False)
+    if obs.get("hang"):
+        ctx.violation(case, "a refused executor configuration hangs instead of raising")
+        return
+    if "choices" in resp:
+        ctx.count("malformed:accepted-by-rule")
+        if "err" in obs:
+            ctx.violation(case, f"the rule accepts this executor configuration, the run fails with {obs['err']}: {obs.get('msg')}", found_input=False,
                           item="correspondence:malformed-executor")
-        ctx.record({"desc": desc, "malformed": which}, nontrivial=False)
+        return
+    if "err" not in obs:
+        ctx.violation(case, "an executor configuration that names no executor for an output is accepted")
+        return
+    if obs["err"] != "ValueError":
+        ctx.violation(case, f"refused with {obs['err']} instead of ValueError", found_input=False, item="correspondence:malformed-executor")
+        return
+    gen_of = {n: g for g, names in enumerate(model["gens"]) for n in names}
+    g = 0 if resp["at"] == "prepare" else resp["gen"]
+    want = [c for c in model["calls"] if gen_of[c[0]] < g]
+    if resp["at"] == "prepare" and obs["calls"]:
+        ctx.violation(case, "user code ran although the request was refused")
+    elif obs["calls"] != want:
+        ctx.violation(case, f"refused when generation {g} was submitted, but the calls made before are not exactly those of the generations before it",
+                      found_input=False, item="correspondence:malformed-executor", impl={"calls": obs["calls"]}, model={"calls": want})
 
 
 def scratch_root():
@@ -517,19 +1043,33 @@ def run(ctx):
     rng = ctx.rng
     thorough = ctx.tier == "thorough"
     _install_dump_hook()
+    EXEC_JOBS.clear()
+    MATRIX_DONE[0] = 0
     base = tempfile.mkdtemp(prefix="verif-c03-", dir=scratch_root())
     try:
         descs = [copy.deepcopy(d) for d, _ in CORPUS]
         ncorp = len(descs)
         kinds = ["elem", "elem", "elem", "outer", "outer", "partial", "partial", "full", "internal", "internal", "gen", "scalar", "autogen"]
-        for _ in range(ctx.n(14, 90)):
+        for _ in range(ctx.n(N_QUICK, 90)):
             while True:      # mostly pipelines in which some function is mapped over >= 2 indices; a few trivial ones
                 d = mapgen.gen_case(rng, max_funcs=rng.choice([2, 3, 4, 5]), kinds=kinds, max_size=rng.choice([2, 3, 3, 4, 5]))
                 if approx_tasks(d) >= 2 or rng.random() < 0.1:
                     break
             descs.append(d)
-        models = [model_obs(r["r"]) for r in ctx.lean([{"m": "map.run", "a": mapgen.model_request(d)} for d in descs], driver="C01")]
-        sched_jobs, hangs = [], 0
+        hist_descs = [copy.deepcopy(d) for d, _ in HISTORY_CORPUS]
+        for _ in range(ctx.n(N_HIST_QUICK, 120)):
+            while True:
+                d = mapgen.gen_case(rng, max_funcs=rng.choice([2, 3, 4]), kinds=kinds, max_size=rng.choice([2, 3, 3, 4]))
+                if approx_tasks(d) >= 2 or rng.random() < 0.1:
+                    break
+            hist_descs.append(d)
+        mal = malformed_cases(ctx)
+        all_models = [model_obs(r["r"]) for r in ctx.lean([{"m": "map.run", "a": mapgen.model_request(d)}
+                                                           for d in descs + hist_descs + [m[0] for m in mal]], driver="C01")]
+        models = all_models[:len(descs)]
+        hist_models = all_models[len(descs):len(descs) + len(hist_descs)]
+        mal_models = all_models[len(descs) + len(hist_descs):]
+        sched_jobs, hist_jobs, mal_jobs, hangs = [], [], [], 0
         for di, (desc, model) in enumerate(zip(descs, models)):
             if "err" in model:
                 raise AssertionError(f"model refuses a generated case: {model} {desc}")
@@ -540,7 +1080,7 @@ def run(ctx):
             if di < ncorp:
                 cfgs.append(copy.deepcopy(CORPUS[di][1]))
             # (a) the permuting executor
-            for k, orders in enumerate(perm_orders(rng, sizes, 40 if thorough else 12)):
+            for k, orders in enumerate(perm_orders(rng, sizes, 40 if thorough else 10)):
                 split = rng.random() < 0.25
                 cfgs.append({"kinds": split_kinds(rng, desc, "perm", "perm") if split else {"": "perm"}, "entry": "map",
                              "storage": storages_for(rng, desc, k, thorough), "folder": k % 4 != 3, "orders": orders})
@@ -548,7 +1088,7 @@ def run(ctx):
                 if not cfg.get("folder", True) and storage_key(cfg) != "dict":
                     cfg["folder"] = True
             # shared memory under the permuting executor (slow: a Manager process per array)
-            for _ in range(3 if thorough else (1 if di % 2 == 0 else 0)):
+            for _ in range(3 if thorough else (1 if di % 3 == 0 else 0)):
                 cfgs.append({"kinds": {"": "perm"}, "entry": "map", "storage": "shared_memory_dict", "folder": True,
                              "orders": [rng.sample(range(m), m) for m in sizes]})
             # (d) map_async under the debounced permuting executor
@@ -561,12 +1101,7 @@ def run(ctx):
                 cfgs.append({"kinds": split_kinds(rng, desc, "thread", "thread") if k % 3 == 2 else {"": "thread"},
                              "entry": "async" if (k % 4 == 3 or (k == 1 and di % 3 == 0)) else "map", "storage": storages_for(rng, desc, k, thorough), "folder": True,
                              "workers": rng.randint(2, 5), "delay": rng.randrange(10**6)})
-            npool = 4 if thorough else (1 if di % 4 == 0 else 0)
-            for k in range(npool):
-                kinds = {"": "process"} if k % 2 == 0 else split_kinds(rng, desc, "process", "thread")
-                cfgs.append({"kinds": kinds, "entry": "async" if k == 3 else "map",
-                             "storage": ["file_array", "dict", "shared_memory_dict", storages_for(rng, desc, 5, True)][k % 4], "folder": True,
-                             "workers": rng.randint(2, 3), "delay": rng.randrange(10**6), "max_delay": 0.003})
+            cfgs += process_cfgs(rng, desc, di, thorough)
             if not thorough:                      # quick: `load_outputs` (a full RunInfo.load) on every third run only
                 for k, cfg in enumerate(cfgs):
                     cfg["reload"] = k % 3 == 0
@@ -596,10 +1131,46 @@ def run(ctx):
                     else:
                         replayed += 1
                         sched_jobs.append((desc, cfg, obs, model, req))
-        malformed(ctx, base)
-        for (desc, cfg, obs, model, _), resp in zip(sched_jobs, ctx.lean([j[4] for j in sched_jobs])):
+            # a failing task under `map` and `map_async`
+            if hangs < 3 and (thorough or di % 2 == 0):
+                fail_runs(ctx, desc, model, base, built)
+        # histories: fixed_indices / cleanup=False under schedules
+        for hi, (desc, model) in enumerate(zip(hist_descs, hist_models)):
+            if "err" in model:
+                raise AssertionError(f"model refuses a generated case: {model} {desc}")
+            hists = [copy.deepcopy(HISTORY_CORPUS[hi][1])] if hi < len(HISTORY_CORPUS) else []
+            hists += [gen_history(rng, desc, thorough) for _ in range(3 if thorough else 1)]
+            for hist in hists:
+                if hangs >= 3:
+                    ctx.skip("not run after three hangs")
+                    continue
+                obs_list = run_history(desc, hist, base)
+                hangs += any(o.get("hang") for o in obs_list)
+                req, replayed = history_request(desc, hist, obs_list, model)
+                hist_jobs.append((desc, hist, obs_list, model, req, replayed))
+        for (desc, which), model in zip(mal, mal_models):
+            if "err" in model:
+                raise AssertionError(f"model refuses a generated case: {model} {desc}")
+            mal_jobs.append(run_malformed(ctx, desc, which, model, base) + (model,))
+        exec_jobs = list(EXEC_JOBS)
+        reqs = [j[4] for j in sched_jobs] + [j[4] for j in hist_jobs] + [j[2] for j in mal_jobs] + [j[2] for j in exec_jobs]
+        resps = ctx.lean(reqs)
+        n1, n2, n3 = len(sched_jobs), len(sched_jobs) + len(hist_jobs), len(sched_jobs) + len(hist_jobs) + len(mal_jobs)
+        for (desc, cfg, obs, model, _), resp in zip(sched_jobs, resps[:n1]):
             judge_sched(ctx, desc, cfg, obs, model, resp["r"])
+        EXEC_JOBS.clear()
+        for (desc, hist, obs_list, model, _, replayed), resp in zip(hist_jobs, resps[n1:n2]):
+            judge_history(ctx, desc, hist, obs_list, model, resp["r"], replayed, base)
+        for (case, obs, _, model), resp in zip(mal_jobs, resps[n2:n3]):
+            judge_malformed(ctx, case, obs, model, resp["r"])
+        for (case, tags, _), resp in zip(exec_jobs, resps[n3:]):
+            judge_exec(ctx, case, tags, resp["r"])
+        late = list(EXEC_JOBS)                      # executor selection of the history parts
+        if late:
+            for (case, tags, _), resp in zip(late, ctx.lean([j[2] for j in late])):
+                judge_exec(ctx, case, tags, resp["r"])
     finally:
+        EXEC_JOBS.clear()
         shutil.rmtree(base, ignore_errors=True)
 
 
@@ -607,10 +1178,31 @@ def replay(ctx, case):
     _install_dump_hook()
     base = tempfile.mkdtemp(prefix="verif-c03-", dir=scratch_root())
     try:
-        if "cfg" not in case:
-            print("malformed-stream case:", case.get("malformed"))
-            return
         model = model_obs(ctx.lean([{"m": "map.run", "a": mapgen.model_request(case["desc"])}], driver="C01")[0]["r"])
+        if "malformed" in case:
+            print("malformed-stream case:", case.get("malformed"), case.get("executor_keys"), "parallel =", case.get("parallel"))
+            req = exec_request(case["desc"], None, model, parallel=case.get("parallel", True), executor=case.get("executor_keys", []))
+            print("rule (exec.select):", ctx.lean([req])[0]["r"])
+            return
+        if "history" in case:
+            hist = case["history"]
+            obs_list = run_history(case["desc"], hist, base)
+            req, _ = history_request(case["desc"], hist, obs_list, model)
+            resp = ctx.lean([req])[0]["r"]
+            seq = run_history(case["desc"], hist, base, parallel=False)
+            for k, obs in enumerate(obs_list):
+                print(f"--- part {k}: fixed_indices={hist['parts'][k]}")
+                print("schedule:", obs.get("schedule"))
+                print("implementation (parallel):", {k2: v for k2, v in obs.items() if k2 in ("outputs", "stored", "present", "err", "msg", "hang")})
+                print("calls:", [[c[0], c[1]] for c in obs.get("log", []) if c[2] == "call"])
+                if k < len(seq):
+                    print("implementation (parallel=False):", {k2: v for k2, v in seq[k].items() if k2 in ("outputs", "stored", "present", "err", "msg")})
+                if k < len(resp["parts"]):
+                    print("model:", resp["parts"][k].get("part") or resp["parts"][k])
+            return
+        if "cfg" not in case:
+            print("case:", case)
+            return
         obs = run_impl(case["desc"], case["cfg"], base)
         print("schedule:", obs.get("schedule"))
         print("implementation:", {k: v for k, v in obs.items() if k != "schedule"})
